@@ -221,6 +221,8 @@ def approximate_scenarios(rep, prog, deep):
             ends = sorted(t for t, cf in node.items() if cf == -half)
             ok = len(mids) == 1 and len(ends) == 2 and len(node) == 3 and ends[0] < mids[0] < ends[1] and ends[0] + ends[1] == 2 * mids[0]
             asked.append((tuple(ends), ok))
+            if len(asked) > 2200 or (len(ends) == 2 and ends[1] - ends[0] < 2.0 ** -11):
+                raise TooDeep()          # more pieces than exist down to depth 10, or a piece narrower than depth 10 allows
             return int(accept(mids[0] if mids else None, tuple(ends)))
         it = S.interp(prog, models={"BezierSpline::<T>::eval": m_eval, "ops::function::Fn::call": m_halt, ">::ilog2": lambda *_a: ilog})
         it.fuel = 20000000
@@ -228,6 +230,9 @@ def approximate_scenarios(rep, prog, deep):
         if not (isinstance(r, tuple) and r[0] == "array"):
             raise A.Undecided("approximate() did not return a vector (%r)" % (str(r)[:60],))
         return [A.deref_all(it, x) for x in r[1]], asked
+
+    class TooDeep(Exception):
+        pass
 
     def ev(t):
         return ("symop", "eval", ("f", float(t)), None)
@@ -253,8 +258,16 @@ def approximate_scenarios(rep, prog, deep):
     if deep:
         try:
             out, asked = run(lambda m, e: False, ilog=0)
+        except TooDeep:
+            ok_all = False
+            rep.violate("C17.R-term", "R-term|budget-exhaustion", ap.where(), "with a criterion that never accepts and a budget of 10, approximate() subdivides below depth 10 (a piece narrower than 2^-10, or more "
+                        "than the 2047 pieces that exist down to that depth): the subdivision does not stop at the depth budget", config=cfg)
+            out, asked = None, []
         except (A.Undecided, A.Panic) as e:
             raise common.Infra("C17.R-term: approximate() could not be interpreted with a criterion that never accepts (%s)" % e)
+        if out is None:
+            rep.inst("C17.R-leaf", "approximate() against fixed subdivision trees: budget exhaustion FAILED", config=cfg)
+            return False
         n_deep = len(out)
         want = [ev(k / 1024.0) for k in range(1024)] + [S.sym("p3")]
         if out != want:
